@@ -24,7 +24,7 @@ fn nasty(r: &mut Rng) -> String {
     let n = r.range(0, 6);
     let mut s = String::new();
     for _ in 0..n {
-        s.push_str(*r.pick(&["a", "B", "1", " ", "\"", "\\", ":", ": ", ",", ", ", "{", "}", "#", " #", "'", "é", "😂", "\t", "\n", "[", "]", "&", "*", "!", "|", ">", "%", "@", "`", "-", "true", "null", "~", "=", "?", "\u{85}", "\u{7f}", "\u{1b}", "\u{2028}", "\u{2029}", "\u{feff}", "\u{a0}", "\u{0}", "\r", "\u{9f}", "\u{200b}", "\u{e000}", "\u{fffd}", "\u{10ffff}"]));
+        s.push_str(*r.pick(&["a", "B", "1", " ", "\"", "\\", ":", ": ", ",", ", ", "{", "}", "#", " #", "'", "é", "😂", "\t", "\n", "[", "]", "&", "*", "!", "|", ">", "%", "@", "`", "-", "true", "null", "~", "=", "?", "\u{85}", "\u{7f}", "\u{1b}", "\u{2028}", "\u{2029}", "\u{feff}", "\u{a0}", "\u{0}", "\r", "\u{9f}", "\u{200b}", "\u{e000}", "\u{fffd}", "\u{10ffff}", "\u{fffe}", "\u{ffff}"]));
     }
     s
 }
